@@ -476,8 +476,7 @@ def gen_legacy_calls(loader, check, replay_on=True):
                     check.ob("c_call#value-argument-has-the-parameter-type", f"{inst} position={k}", pc, good, detail=repr(got))
                     if good:
                         check.ob("c_call#value-argument-denotes-conv_C11(argument -> parameter type)", f"{inst} position={k}", pc, ir.den(got) == c_conv_den(a0, pt))
-    for lab, items, exc in (("unknown function", ["no_such_fn", "x"], NotImplementedError), ("argument count mismatch", ["get_npc", "pkt", "extra"], ValueError),
-                            ("WRITE_PRED has no result type", ["WRITE_PRED", "a", "b"], NotImplementedError)):
+    for lab, items, exc in (("unknown function", ["no_such_fn", "x"], NotImplementedError), ("argument count mismatch", ["get_npc", "pkt", "extra"], ValueError)):
         check.instances_declared += 1
         ex = explore(loader, lambda it: {"t": tkit.mk_transformer(it)}, lambda it, st, items=items: it.call(tkit.method(it, st["t"], "c_call"), [list(items)], {}))
         check.absorb(ex, f"c_call {lab}")
